@@ -3,6 +3,7 @@ package main
 import (
 	"fmt"
 	"go/ast"
+	"go/constant"
 	"go/token"
 	"go/types"
 	"reflect"
@@ -451,52 +452,49 @@ func r155(c *Ctx, r *R) {
 	if fd == nil {
 		return
 	}
-	// `hidden := f.Tag.Get("hidden") == "true"` and `if hidden { f.Type = hiddenFieldT }`
-	var hiddenObj types.Object
-	ast.Inspect(fd.Body, func(n ast.Node) bool {
-		as, ok := n.(*ast.AssignStmt)
-		if !ok || len(as.Lhs) != 1 || len(as.Rhs) != 1 {
-			return true
-		}
-		be, ok := as.Rhs[0].(*ast.BinaryExpr)
-		if !ok || be.Op != token.EQL {
-			return true
-		}
-		call, ok := be.X.(*ast.CallExpr)
-		if !ok || funcFullName(pkg, call) != "(reflect.StructTag).Get" {
-			return true
-		}
-		k, _ := constStr(pkg, call.Args[0])
-		v, _ := constStr(pkg, be.Y)
-		if k == "hidden" && v == "true" {
-			if id, ok := as.Lhs[0].(*ast.Ident); ok {
-				hiddenObj = pkg.TypesInfo.ObjectOf(id)
-			}
-		}
-		return true
-	})
+	// in DisplayJSON or a function it calls: a store into the Type of a
+	// reflect.StructField, of reflect.TypeOf(hiddenField{}), on the edge
+	// where Tag.Get("hidden") == "true"
+	_ = pkg
 	okReplace := false
-	if hiddenObj != nil {
-		ast.Inspect(fd.Body, func(n ast.Node) bool {
-			ifs, ok := n.(*ast.IfStmt)
-			if !ok {
-				return true
+	if df := c.fn(r, "config", "DisplayJSON"); df != nil {
+		isHidden := func(g Guard) bool {
+			x, k, tme, ok := eqConst(g.Cond)
+			if !ok || k.Kind() != constant.String || constant.StringVal(k) != "true" || tme != g.Branch {
+				return false
 			}
-			id, ok := ifs.Cond.(*ast.Ident)
-			if !ok || pkg.TypesInfo.ObjectOf(id) != hiddenObj {
-				return true
+			call, _ := originCall(x)
+			if call == nil || !nameMatches(callName(call.Common()), "(reflect.StructTag).Get") {
+				return false
 			}
-			for _, s := range ifs.Body.List {
-				if as, ok := s.(*ast.AssignStmt); ok && len(as.Lhs) == 1 {
-					if se, ok := as.Lhs[0].(*ast.SelectorExpr); ok && se.Sel.Name == "Type" {
-						okReplace = true
-					}
+			args := callArgs(call.Common())
+			key, _ := constString(args[len(args)-1])
+			return key == "hidden"
+		}
+		for g := range ssaClosure(df) {
+			instrs(g, func(i ssa.Instruction) {
+				st, ok := i.(*ssa.Store)
+				if !ok {
+					return
 				}
-			}
-			return true
-		})
+				fa, ok := st.Addr.(*ssa.FieldAddr)
+				if !ok || fieldOfAddr(fa) == nil || fieldOfAddr(fa).Name() != "Type" || !strings.HasSuffix(fieldOfAddr(fa).Pkg().Path(), "reflect") {
+					return
+				}
+				call, _ := originCall(st.Val)
+				if call == nil || !nameMatches(callName(call.Common()), "=reflect.TypeOf") {
+					return
+				}
+				if !strings.HasSuffix(strip(call.Common().Args[0]).Type().String(), "config.hiddenField") {
+					return
+				}
+				if guardedBy(st.Block(), isHidden) {
+					okReplace = true
+				}
+			})
+		}
 	}
-	r.Check(hiddenObj != nil && okReplace, "displayjson:replaces-hidden", fd.Pos(), "fields tagged hidden:\"true\" get the placeholder type", "DisplayJSON no longer replaces the type of fields tagged hidden:\"true\"")
+	r.Check(okReplace, "displayjson:replaces-hidden", fd.Pos(), "fields tagged hidden:\"true\" get the placeholder type", "DisplayJSON no longer replaces the type of fields tagged hidden:\"true\"")
 	// placeholder marshals to a constant
 	m := c.fn(r, "config", "hiddenField.MarshalJSON")
 	if m != nil {
